@@ -3,7 +3,7 @@
 # Prints the VIOLATION / exit lines. Never leaves /repo modified (reverse-applies the same patch). Holds the
 # exclusive /verif/work/repo.lock meanwhile (ordinary ./check runs hold it shared), so concurrent checks of other
 # people never see the modified tree and two seeded regressions are never applied at once.
-P=$1; shift
+P=$(realpath "$1"); shift
 mkdir -p /verif/work
 exec 9>/verif/work/repo.lock
 flock -x 9
